@@ -10,6 +10,7 @@ E2  tail-flush exhaustiveness: when a function flushes the remainder of a cursor
     every `finish` reached after the cursor was initialised is reached either through that flush or with the
     fact `!(c < n)` -- for every flushed cursor independently (old and new remainders are both consumed).
 """
+import re
 from .core import RuleResult
 from .facts import term_str
 from . import guard as G
@@ -303,6 +304,7 @@ def rule_E2(prog):
         base = G.Flow(fn)
         base.run()
         flushes = []     # (block, cursor local, bound key, method)
+        range_flushes = []   # (block, range local, range key, method)
         for bb, t, meth in emissions(fn):
             op, ol, np_, nl = SIG[meth]
             for li in (ol, nl):
@@ -319,17 +321,40 @@ def rule_E2(prog):
                         guarded = bool(st) and all(v.has(("lt", neg[0], posk[0]), True) for v in st)
                         if guarded:
                             flushes.append((bb, curs[0], posk[0], meth))
-        if not flushes:
+                # the same flush written over a range: `let rest = base + c..base + n; if !rest.is_empty() { emit(rest.len()) }`
+                ts = G.strip(term)
+                if isinstance(ts, tuple) and ts and ts[0] == "call" and (
+                        ts[1].endswith("ExactSizeIterator::len") or ts[1].endswith("Range::<usize>::len")) and ts[2]:
+                    a = G.strip(ts[2][0])
+                    rl = sorted(G.roots(a))
+                    if len(rl) == 1 and isinstance(a, tuple) and a[0] == "local" and rl[0] > m.arg_count and m.single_def(rl[0]):
+                        ka = G.key(a)
+                        st = base.instate.get(bb)
+                        if bool(st) and all(v.has(("empty", ka), False) for v in st):
+                            range_flushes.append((bb, rl[0], ka, meth))
+        if not flushes and not range_flushes:
             continue
         marks = {bb: i for i, (bb, c, n, meth) in enumerate(flushes)}
+        for j, (bb, rloc, ka, meth) in enumerate(range_flushes):
+            marks[bb] = len(flushes) + j
         fl = MarkFlow(fn, marks)
+        fl.protect = set()
+        for (fb, c, nkey, meth) in flushes:
+            fl.protect.add(("lt", term_str(("local", sc.cursors[c], c)), nkey))
+        for (fb, rloc, ka, meth) in range_flushes:
+            fl.protect.add(("empty", ka))
         fl.run()
         fins = [(bb, t) for bb, t in m.calls() if (m.callee(t) or {}).get("trait") == HOOK and m.callee(t).get("method") == "finish"]
+        todo = []   # (mark id, flush block, first init block, label of the cursor/range, text of the remainder, fact that shows it empty, method)
         for i, (fb, c, nkey, meth) in enumerate(flushes):
             cname = sc.cursors[c]
             ckey = term_str(("local", cname, c))
             init_blocks = [d[0] for d in m.defs().get(c, [])]
-            first_init = min(init_blocks) if init_blocks else 0
+            todo.append((i, fb, min(init_blocks) if init_blocks else 0, cname, "%s - %s" % (nkey, cname), (("lt", ckey, nkey), False), meth))
+        for j, (fb, rloc, ka, meth) in enumerate(range_flushes):
+            todo.append((len(flushes) + j, fb, m.single_def(rloc)[0], m.local_name(rloc) or ka, "%s.len()" % ka, (("empty", ka), True), meth))
+        for i, fb, first_init, cname, remainder, (fact, fpol), meth in todo:
+            nkey = remainder
             for bb, t in fins:
                 if not m.dominates(first_init, bb):
                     continue
@@ -339,18 +364,18 @@ def rule_E2(prog):
                     continue
                 bad = None
                 for v in st:
-                    if v.has(("emitted", i), True) or v.has(("lt", ckey, nkey), False):
+                    if v.has(("emitted", i), True) or v.has(fact, fpol):
                         continue
                     bad = v
                     break
-                r.ob(bad is None, "%s: finish (line %d): remainder %s - %s is flushed by `%s` or known empty on every path: %s" % (
-                    fn.path, t["line"], nkey, cname, meth, bad is None))
+                r.ob(bad is None, "%s: finish (line %d): remainder %s is flushed by `%s` or known empty on every path: %s" % (
+                    fn.path, t["line"], remainder, meth, bad is None))
                 if bad is not None:
                     facts = sorted(("%s%s" % ("" if p else "!", G._lit_s(l) if l[0] != "emitted" else "flush#%d" % l[1])) for l, p in bad.lits)
                     r.find(fn.path, "unflushed:%s" % cname,
-                           "finish is reachable (line %d) on a path where the remainder `%s - %s` was neither flushed by "
+                           "finish is reachable (line %d) on a path where the remainder `%s` was neither flushed by "
                            "`%s` nor shown empty (facts on that path: %s): part of the %s range is never reported" % (
-                               t["line"], nkey, cname, meth, ", ".join(facts) or "none",
+                               t["line"], remainder, meth, ", ".join(facts) or "none",
                                "old" if meth == "delete" else "new"), file=fn.file, line=m.blocks[fb]["term"]["line"])
     return r
 
@@ -460,4 +485,416 @@ def rule_E6(prog):
                            "position no longer is where the previous segment stopped" % (
                                t2.get("src", meth2)[:70], side, m.local_name(S), sc.cursors[c],
                                stale[0].get("src", stale[1])[:50], side), file=fn.file, line=t2["line"])
+    return r
+
+
+def rule_E7(prog):
+    return _position_reuse(prog, "E7", False,
+                           "a position is used once: when a hook call consumed items of a side at position P (its length is positive, "
+                           "E1), no later hook call reachable from it without re-computing P reports the same P for a segment that "
+                           "consumes that side, nor -- after an `equal` -- as the carried position of a delete/insert: the next "
+                           "segment starts at P + length")
+
+
+def rule_E8(prog):
+    return _position_reuse(prog, "E8", True,
+                           "carried positions are exact: after `delete(P, n, q)` consumed old items at P, a following `insert` does "
+                           "not carry the old position P again (and symmetrically for the new position carried by a delete after an "
+                           "insert): the carried index is P + n.  (C01 tolerates a carried index anywhere within its run of changes; "
+                           "the clean-up pass shifts ops by their carried indices, so C11 needs them exact.)")
+
+
+def _position_reuse(prog, rid, carried, text):
+    r = RuleResult(rid, text)
+    for fn in prog.user_fns():
+        if not fn.mir or fn.module not in SCOPE_MODULES:
+            continue
+        m = fn.mir
+        ems = list(emissions(fn))
+        if len(ems) < 2:
+            continue
+
+        # local -> blocks that write it: whole or partial assignment (`old_range.start += n`), call destination, `&mut` borrow
+        writes = {}
+        for bi, b in enumerate(m.blocks):
+            for st_ in b["stmts"]:
+                if st_["k"] == "assign":
+                    writes.setdefault(st_["p"]["l"], set()).add(bi)
+                    rv = st_["rv"]
+                    if rv["k"] == "ref" and rv.get("mut"):
+                        writes.setdefault(rv["p"]["l"], set()).add(bi)
+            tt = b["term"]
+            if tt["k"] == "call":
+                writes.setdefault(tt["dest"]["l"], set()).add(bi)
+
+        def pos_form(t, pi):
+            if pi is None or pi >= len(t["args"]):
+                return None, None
+            term = m.expand(m.resolve_operand(t["args"][pi]), depth=4)
+            d = norm(lin(m, term))
+            if not d or "?" in d:
+                return None, None
+            return tuple(sorted(d.items())), term
+
+        for bb1, t1, meth1 in ems:
+            o1, ol1, n1, nl1 = SIG[meth1]
+            if t1.get("target") is None:
+                continue
+            for side, p1, l1 in (("old", o1, ol1), ("new", n1, nl1)):
+                if l1 is None:
+                    continue            # this call consumes nothing of that side
+                f1, term1 = pos_form(t1, p1)
+                if f1 is None:
+                    continue
+                r.instances += 1
+                # blocks that (re)define a local the position is built from end the life of this value of P
+                stops = set(b for l in G.roots(term1) for b in writes.get(l, ()))
+                reach = m.reach_from([t1["target"]], stop=tuple(stops))
+                stale = None
+                for bb2, t2, meth2 in ems:
+                    if bb2 == bb1 or bb2 not in reach:
+                        continue
+                    o2, ol2, n2, nl2 = SIG[meth2]
+                    # a carried position (new side of a delete, old side of an insert) may lie anywhere within its run of
+                    # changes (C01); it must be exact when the call consumes that side or follows an `equal`
+                    is_carried = (ol2 if side == "old" else nl2) is None and meth1 != "equal"
+                    if is_carried != carried:
+                        continue
+                    f2, _ = pos_form(t2, o2 if side == "old" else n2)
+                    if f2 == f1:
+                        stale = (t2, meth2)
+                        break
+                r.ob(stale is None, "%s: `%s` (line %d) consumes %s items at %s: %s" % (
+                    fn.path, t1.get("src", meth1)[:50], t1["line"], side, _fmt(dict(f1)),
+                    "no later call reports that position again" if stale is None else
+                    "reported again by `%s`" % stale[0].get("src", stale[1])[:50]))
+                if stale is not None:
+                    r.find(fn.path, "%s:%s:%s" % ("carried-position-stale" if carried else "position-reused", meth1, stale[1]),
+                           "`%s` reports the %s position `%s`, where `%s` (line %d) already consumed %s items: the segment "
+                           "does not start where the previous one stopped" % (
+                               stale[0].get("src", stale[1])[:70], side, _fmt(dict(f1)), t1.get("src", meth1)[:50], t1["line"], side),
+                           file=fn.file, line=stale[0]["line"])
+    return r
+
+
+def _contains_call(term, suffix, depth=0):
+    """Does the (expanded) term contain a call whose path ends with `suffix`?"""
+    if depth > 14:
+        return False
+    if isinstance(term, tuple):
+        if term and term[0] == "call" and isinstance(term[1], str) and term[1].endswith(suffix):
+            return True
+        return any(_contains_call(x, suffix, depth + 1) for x in term if isinstance(x, (tuple, list, dict)))
+    if isinstance(term, list):
+        return any(_contains_call(x, suffix, depth + 1) for x in term)
+    if isinstance(term, dict) and "path" not in term:
+        return any(_contains_call(x, suffix, depth + 1) for x in term.values())
+    return False
+
+
+def _roots_opaque(term, opaque, acc=None, depth=0):
+    """Locals a term is built from, not looking into calls of the `opaque` functions (their result is a number of its own)."""
+    acc = set() if acc is None else acc
+    if depth > 14:
+        return acc
+    if isinstance(term, tuple):
+        if term and term[0] == "call" and isinstance(term[1], str) and term[1].endswith(tuple(opaque)):
+            return acc
+        if term and term[0] == "local" and len(term) > 2 and isinstance(term[2], int):
+            acc.add(term[2])
+            return acc
+        for x in term:
+            if isinstance(x, (tuple, list, dict)):
+                _roots_opaque(x, opaque, acc, depth + 1)
+    elif isinstance(term, list):
+        for x in term:
+            _roots_opaque(x, opaque, acc, depth + 1)
+    elif isinstance(term, dict) and "path" not in term:
+        for x in term.values():
+            _roots_opaque(x, opaque, acc, depth + 1)
+    return acc
+
+
+def rule_E9(prog):
+    r = RuleResult("E9", "prefix and suffix are stripped from the same box: where a function measures the common prefix of its two "
+                         "ranges and then a common suffix up to the same ends, the suffix is measured over ranges that exclude the "
+                         "prefix on BOTH sides (range start advanced by the prefix length), or its result is limited by what the "
+                         "prefix left on both sides; otherwise prefix and suffix can overlap on the shorter side and items are "
+                         "reported twice")
+    PRE, SUF = "utils::common_prefix_len", "utils::common_suffix_len"
+    for fn in prog.user_fns():
+        if not fn.mir:
+            continue
+        m = fn.mir
+        pcalls = [(bb, t) for bb, t in m.calls() if (m.callee(t) or {}).get("path", "").endswith(PRE) and len(t["args"]) == 4]
+        scalls = [(bb, t) for bb, t in m.calls() if (m.callee(t) or {}).get("path", "").endswith(SUF) and len(t["args"]) == 4]
+        if not pcalls or not scalls:
+            continue
+
+        def unclone(term):
+            term = G.strip(term)
+            for _ in range(3):
+                if isinstance(term, tuple) and term and term[0] == "call" and str(term[1]).endswith("clone") and term[2]:
+                    term = G.strip(term[2][0])
+            return term
+
+        for sb, st in scalls:
+            doms = [(pb, pt) for pb, pt in pcalls if pb != sb and m.dominates(pb, sb)]
+            if not doms:
+                continue
+            pb, pt = doms[-1]
+            pdest = pt["dest"]["l"] if not pt["dest"]["proj"] else None
+            # the prefix and the suffix must be about the same box: the suffix ranges end where the prefix ranges end
+            same_box = True
+            sides = {}
+            for side, ai in (("old", 1), ("new", 3)):
+                pr = unclone(m.resolve_operand(pt["args"][ai]))
+                sr_raw = unclone(m.resolve_operand(st["args"][ai]))
+                sr = unclone(m.expand(sr_raw, depth=3))
+                proots = G.roots(pr)
+                trimmed = None
+                if isinstance(sr, tuple) and sr and sr[0] == "aggregate" and "start" in sr[2] and "end" in sr[2]:
+                    end_roots = G.roots(m.expand(sr[2]["end"], depth=3))
+                    if proots and not (proots & (end_roots | G.roots(sr[2]["end"]))):
+                        same_box = False
+                    e_end = m.expand(sr[2]["end"], depth=3)
+                    if norm(lin(m, e_end)) != norm(lin(m, ("field", pr, "end"))) and G.roots(pr):
+                        # `..old_range.end` of the very range the prefix was measured on?
+                        if term_str(G.strip(sr[2]["end"])) != term_str(("field", pr, "end")):
+                            same_box = False
+                    start = m.expand(sr[2]["start"], depth=4)
+                    trimmed = _contains_call(start, PRE) or (pdest is not None and pdest in G.roots(sr[2]["start"]))
+                elif isinstance(sr_raw, tuple) and sr_raw and sr_raw[0] == "local" and isinstance(sr_raw[2], int):
+                    R = sr_raw[2]
+                    if R not in proots:
+                        same_box = False
+                    # `R.start += prefix` in a block between the two calls
+                    trimmed = False
+                    for bi, b in enumerate(m.blocks):
+                        if not (m.dominates(pt["target"], bi) and m.dominates(bi, sb)) if pt.get("target") is not None else True:
+                            continue
+                        for s_ in b["stmts"]:
+                            if s_["k"] == "assign" and s_["p"]["l"] == R and s_["p"]["proj"] and \
+                                    any(isinstance(e, dict) and (e.get("name") == "start" or e.get("field") == 0) for e in s_["p"]["proj"]):
+                                rv = m.expand(m.resolve_rvalue(s_["rv"]), depth=4)
+                                if _contains_call(rv, PRE) or (pdest is not None and pdest in G.roots(m.resolve_rvalue(s_["rv"]))):
+                                    trimmed = True
+                else:
+                    same_box = False
+                sides[side] = trimmed
+            if not same_box or None in sides.values():
+                continue
+            r.instances += 1
+            ok = sides["old"] and sides["new"]
+            why = "both ranges exclude the prefix"
+            if not ok and not sides["old"] and not sides["new"]:
+                # both untrimmed: accept a result limited by what the prefix left on both sides
+                sdest = st["dest"]["l"] if not st["dest"]["proj"] else None
+                lim_roots = set()
+                limited = False
+                for bb2, t2 in m.calls():
+                    c2 = m.callee(t2) or {}
+                    if c2.get("path", "").endswith("::min") and sdest is not None and any(sdest in _op_locals(a) or sdest in G.roots(m.resolve_operand(a)) for a in t2["args"]):
+                        limited = True
+                        for a in t2["args"]:
+                            if sdest in _op_locals(a) or sdest in G.roots(m.resolve_operand(a)):
+                                continue          # the suffix length itself
+                            if _contains_call(m.resolve_operand(a), SUF):
+                                continue
+                            lim_roots |= _roots_opaque(m.expand(m.resolve_operand(a), depth=4), (PRE, SUF))
+                o_roots = G.roots(unclone(m.resolve_operand(pt["args"][1])))
+                n_roots = G.roots(unclone(m.resolve_operand(pt["args"][3])))
+                if limited and (lim_roots & o_roots) and (lim_roots & n_roots):
+                    ok, why = True, "result limited by both sides"
+            r.ob(ok, "%s: suffix measured at line %d after the prefix of line %d: %s" % (
+                fn.path, st["line"], pt["line"], why if ok else "old %s, new %s" % (
+                    "trimmed" if sides["old"] else "UNTRIMMED", "trimmed" if sides["new"] else "UNTRIMMED")))
+            if not ok:
+                which = [s for s in ("old", "new") if not sides[s]]
+                r.find(fn.path, "suffix-overlaps-prefix:%s" % "+".join(which),
+                       "`%s` measures the common suffix over a %s range that still contains the common prefix found at line %d "
+                       "(and the result is not limited to what the prefix left on both sides): on inputs like `x x` / `x` prefix "
+                       "and suffix overlap, and the overlapping items are reported twice" % (
+                           st.get("src", "common_suffix_len(..)")[:80], " and ".join(which), pt["line"]),
+                       file=fn.file, line=st["line"])
+    return r
+
+
+# ---------------------------------------------------------------- E10: equal segments are backed by element comparisons
+PEQ = "std::cmp::PartialEq"
+IDX = "std::ops::Index"
+
+
+def _elem_comparisons(m):
+    """[(true-target block, new-index term, old-index term, cmp block)] for `new[i] == old[j]` switches of a body
+    (either operand order; `!=` contributes its false edge)."""
+    out = []
+    for bb, t in m.calls():
+        c = m.callee(t) or {}
+        if c.get("trait") != PEQ or c.get("method") not in ("eq", "ne") or len(t["args"]) != 2 or t.get("target") is None:
+            continue
+        idxs = []
+        for a in t["args"]:
+            term = G.strip(m.resolve_operand(a))
+            if isinstance(term, tuple) and term and term[0] == "call" and len(term) > 3 and (term[3] or {}).get("trait") == IDX and len(term[2]) == 2:
+                idxs.append((G.strip(term[2][0]), term[2][1]))
+            else:
+                idxs = None
+                break
+        if not idxs:
+            continue
+        # the switch on the result
+        tb = t["target"]
+        sw = m.blocks[tb]["term"]
+        if sw["k"] != "switch" or sw.get("discr", {}).get("k") not in ("copy", "move") or sw["discr"]["p"]["l"] != t["dest"]["l"]:
+            continue
+        if sw["values"] != ["0"] and sw["values"] != [0]:
+            continue
+        false_t, true_t = sw["targets"][0], sw["otherwise"]
+        if c["method"] == "ne":
+            false_t, true_t = true_t, false_t
+        out.append((true_t, idxs, bb))
+    return out
+
+
+def _dominated_by_edge(m, target, pred_block, b):
+    """Is b dominated by the edge pred_block -> target (target has that single predecessor, or dominates b anyway)?"""
+    return m.dominates(target, b) and (len(m.preds(target)) == 1)
+
+
+def rule_E10(prog):
+    r = RuleResult("E10", "equal segments are backed by element comparisons: the length of every `equal` call of the three "
+                          "algorithms is (a) the result of common_prefix_len / common_suffix_len, (b) the literal 1 under a "
+                          "`new[j] == old[i]` test of exactly the reported positions, (c) `cursor - snapshot` where the cursor "
+                          "only advanced by 1, in lockstep with the other side's cursor, under `new[new_cursor] == old[old_cursor]`, "
+                          "or (d) a value a dominating `==` test equates with one of these; anything else reports items equal "
+                          "that nobody compared")
+    PRE, SUF = "utils::common_prefix_len", "utils::common_suffix_len"
+    for fn in prog.user_fns():
+        if not fn.mir or fn.module not in SCOPE_MODULES:
+            continue
+        m = fn.mir
+        ems = [(bb, t) for bb, t, meth in emissions(fn) if meth == "equal"]
+        if not ems:
+            continue
+        cmps = _elem_comparisons(m)
+
+        def is_affix(term):
+            e = G.strip(m.expand(term, depth=4))
+            return isinstance(e, tuple) and e and e[0] == "call" and isinstance(e[1], str) and e[1].endswith((PRE, SUF))
+
+        def place_writes(key):
+            """blocks/statements that assign the place whose rendering is `key`"""
+            res = []
+            for bi, b in enumerate(m.blocks):
+                for s_ in b["stmts"]:
+                    if s_["k"] == "assign" and (s_["p"]["proj"] or m.local_name(s_["p"]["l"]) is not None) and \
+                            (m.local_name(s_["p"]["l"]) is not None or s_["p"]["l"] <= m.arg_count) and \
+                            term_str(G.strip(m.resolve_place(s_["p"]))) == key:
+                        res.append((bi, s_))
+            return res
+
+        for bb, t in ems:
+            if len(t["args"]) < 4:
+                continue
+            r.instances += 1
+            L = m.resolve_operand(t["args"][3])
+            opos = m.expand(m.resolve_operand(t["args"][1]), depth=3)
+            npos = m.expand(m.resolve_operand(t["args"][2]), depth=3)
+            why = None
+            Ls = G.strip(L)
+            # (a)
+            if is_affix(L):
+                why = "length is a common prefix/suffix length"
+            # (b)
+            elif isinstance(Ls, tuple) and Ls[0] == "const" and Ls[1] == 1:
+                for true_t, idxs, cb in cmps:
+                    if not _dominated_by_edge(m, true_t, cb, bb):
+                        continue
+                    forms = [norm(lin(m, m.expand(ix, depth=3))) for _, ix in idxs]
+                    if sorted(map(_fmt, forms)) == sorted(map(_fmt, [norm(lin(m, opos)), norm(lin(m, npos))])):
+                        why = "one item under `new[j] == old[i]` of the reported positions"
+                        break
+            else:
+                d = norm(lin(m, L))
+                posk = [k for k, v in d.items() if v == 1]
+                negk = [k for k, v in d.items() if v == -1]
+                # (c) cursor - snapshot
+                if len(d) == 2 and len(posk) == 1 and len(negk) == 1:
+                    snap = [l for l, decl in enumerate(m.locals) if decl.get("name") and term_str(("local", decl["name"], l)) == negk[0] and m.single_def(l)]
+                    ok_c = False
+                    if snap:
+                        S = snap[0]
+                        sd = m.single_def(S)
+                        src = term_str(G.strip(m.resolve_rvalue(sd[3]))) if sd[2] == "assign" else None
+                        # the old position reported must be the snapshot, the new one a snapshot of the partner cursor
+                        o_l = G.strip(m.resolve_operand(t["args"][1]))
+                        n_l = G.strip(m.resolve_operand(t["args"][2]))
+                        if src == posk[0] and isinstance(o_l, tuple) and o_l[0] == "local" and o_l[2] == S and \
+                                isinstance(n_l, tuple) and n_l[0] == "local" and isinstance(n_l[2], int) and m.single_def(n_l[2]):
+                            nsd = m.single_def(n_l[2])
+                            partner = term_str(G.strip(m.resolve_rvalue(nsd[3]))) if nsd[2] == "assign" else None
+                            defb = sd[0]
+                            fwd = m.reach_from(m.succs(defb), stop=(defb,)) | {defb}
+                            back = set()
+                            st_ = [bb]
+                            while st_:
+                                x = st_.pop()
+                                if x in back:
+                                    continue
+                                back.add(x)
+                                if x == defb:
+                                    continue
+                                st_.extend(m.preds(x))
+                            region = fwd & back
+                            ok_c = partner is not None and nsd[0] == defb
+                            blocks_x, blocks_p = set(), set()
+                            for key, acc in ((posk[0], blocks_x), (partner, blocks_p)):
+                                for bi, s_ in place_writes(key) if key else []:
+                                    if bi not in region:
+                                        continue
+                                    rv = norm(lin(m, m.resolve_rvalue(s_["rv"])))
+                                    if rv != {key: 1, "#": 1}:
+                                        ok_c = False
+                                    guarded = False
+                                    for true_t, idxs, cb in cmps:
+                                        if _dominated_by_edge(m, true_t, cb, bi):
+                                            ks = sorted(term_str(G.strip(ix)) for _, ix in idxs)
+                                            if ks == sorted([posk[0], partner]):
+                                                guarded = True
+                                    if not guarded:
+                                        ok_c = False
+                                    acc.add(bi)
+                            # lockstep: both cursors advance in the same guarded regions (same number of times per pass)
+                            if ok_c and len(blocks_x) != len(blocks_p):
+                                ok_c = False
+                            if ok_c and not blocks_x:
+                                ok_c = False
+                    if ok_c:
+                        why = "cursor - snapshot, advanced one compared item at a time on both sides"
+                # (d) equated with an affix length by a dominating test
+                if why is None:
+                    lk = term_str(G.strip(m.expand(L, depth=2)))
+                    lk2 = term_str(G.strip(L))
+                    for sb_, blk in enumerate(m.blocks):
+                        sw = blk["term"]
+                        if sw["k"] != "switch" or sw.get("discr", {}).get("k") not in ("copy", "move") or sw["values"] not in (["0"], [0]):
+                            continue
+                        cond = G.strip(m.resolve_operand(sw["discr"]))
+                        if not (isinstance(cond, tuple) and cond and cond[0] == "binop" and cond[1] == "Eq"):
+                            continue
+                        true_t = sw["otherwise"]
+                        if not _dominated_by_edge(m, true_t, sb_, bb):
+                            continue
+                        a_, b_ = cond[2], cond[3]
+                        for x, y in ((a_, b_), (b_, a_)):
+                            if is_affix(x) and term_str(G.strip(m.expand(y, depth=2))) in (lk, lk2):
+                                why = "a dominating `==` equates the length with a common prefix/suffix length"
+            r.ob(why is not None, "%s: `%s` (line %d): %s" % (fn.path, t.get("src", "equal")[:60], t["line"], why or "length `%s` is not backed by a comparison" % term_str(G.strip(L))[:80]))
+            if why is None:
+                r.find(fn.path, "unbacked-equal:%s" % re.sub(r"_\d+\b", "_", term_str(G.strip(L)))[:60],
+                       "`%s` reports %s items as equal, but that length is neither a common prefix/suffix length, nor one "
+                       "item under a `new[j] == old[i]` test of the reported positions, nor the distance a cursor pair "
+                       "advanced under such a test: items nobody compared are reported equal" % (
+                           t.get("src", "equal")[:80], term_str(G.strip(L))[:60]), file=fn.file, line=t["line"])
     return r
